@@ -68,7 +68,7 @@ def translate(units=None):
         return {"_translator": "crashed: " + r.stderr[-300:]}
     status = json.loads(r.stdout.strip().splitlines()[-1])
     # CLI table / worker skeleton extractors
-    for extra in ("cli2coq.py", "workers2coq.py", "proto2coq.py", "buf2coq.py", "icfw2coq.py", "plink2coq.py", "ridx2coq.py", "regions2coq.py", "san2coq.py", "enc2coq.py", "offs2coq.py", "schema2coq.py", "iter2coq.py", "scan2coq.py", "summ2coq.py", "refine2coq.py", "initarr2coq.py", "explode2coq.py", "lpl2coq.py", "idx2coq.py", "ivcf2coq.py"):
+    for extra in ("cli2coq.py", "workers2coq.py", "proto2coq.py", "buf2coq.py", "icfw2coq.py", "plink2coq.py", "ridx2coq.py", "regions2coq.py", "san2coq.py", "enc2coq.py", "offs2coq.py", "schema2coq.py", "iter2coq.py", "scan2coq.py", "summ2coq.py", "refine2coq.py", "initarr2coq.py", "explode2coq.py", "lpl2coq.py", "idx2coq.py", "ivcf2coq.py", "transf2coq.py"):
         p = os.path.join(VERIF, "translator", extra)
         if os.path.exists(p):
             r2 = run([PY, p, os.path.join(COQ, "Gen")])
